@@ -105,7 +105,7 @@ EvScan ==
        /\ curs[e.c] = Fresh
        /\ e.out = ScanAnswer(content, e.dir)
        /\ LoadsOk(e.maxloads)
-       /\ curs' = [curs EXCEPT ![e.c] = [pos |-> 0, zone |-> TRUE]]
+       /\ curs' = [curs EXCEPT ![e.c] = [pos |-> 0, zone |-> "rel"]]
     /\ UNCHANGED <<content, cfg>>
 
 \* summary of an exhaustive exploration (informational)
